@@ -4,6 +4,7 @@ from __future__ import annotations
 import ast
 
 from .. import memo
+from .. import shape as _sh
 from ..flow import call_name, dotted, norm, writes_in
 from ..index import AnalysisError, walk_local
 from ..lib import (cfg_of, defs_of, edge_leads_only_to_raise, is_super_call, live, nodes_calling,
@@ -64,6 +65,7 @@ def context_copy_rule(ck, ix):
             base = t
             while isinstance(base, ast.Subscript):
                 base = base.value
+            base = _sh.unalias(base, fc.node)       # `table = copy.field; table[k] = ...` writes the copy's field
             if isinstance(base, ast.Attribute) and isinstance(base.value, ast.Name) and base.value.id == copyname:
                 assigned.setdefault(base.attr, []).append(a)
     for F in fields:
@@ -84,79 +86,140 @@ def context_copy_rule(ck, ix):
         ck.check(ok, "G-EXH", f"Context.from_context|field|{F}", fc.loc(), f"{F} carried over by {how}",
                  f"the parameterised copy made by Context.from_context does not receive `{F}` from the original: activating the context with keyword parameters silently loses its {F}")
 
+PAIRS_OF = ("zip(_P[:-1], _P[1:])", "zip(_P, _P[1:])", "itertools.pairwise(_P)", "pairwise(_P)")
+
+
+def _m(pattern, e, fn=None):
+    """shape.match of `e` as written, else (inside `fn`) with local temporaries resolved"""
+    b = _sh.match(pattern, e)
+    if b is None and fn is not None:
+        b = _sh.match(pattern, _sh.resolve(e, fn))
+    return b
+
+
+def _names_bound_to(fi, pred) -> set:
+    """local names every plain assignment of which binds a value satisfying `pred` (found by role, not by spelling)"""
+    out = set()
+    for nm, ds in defs_of(fi).defs.items():
+        vals = [v for v, k, s_ in ds if k == "assign"]
+        if vals and len(vals) == len([d for d in ds if d[1] != "fill"]) and all(v is not None and pred(v) for v in vals) and nm not in defs_of(fi).params:
+            out.add(nm)
+    return out
+
+
 def run(ck, ix, tier):
     ck.rule("G-TYPESTATE", "a container is used with a single queue discipline")
     # ------------------------------------------------------------ find_shortest_path
     fi = ix.func("pint.util", "find_shortest_path")
     ck.analysed(fi)
+    fn = fi.node
     defs = defs_of(fi)
     cfg = cfg_of(fi)
-    q = [nm for nm, ds in defs.defs.items() if any(v is not None and isinstance(v, ast.Call) and call_name(v) == "deque" for v, k, s in ds)]
-    lists = [nm for nm, ds in defs.defs.items() if any(v is not None and isinstance(v, ast.List) and nm != "path" for v, k, s in ds)]
+    q = sorted(_names_bound_to(fi, lambda v: isinstance(v, ast.Call) and call_name(v) == "deque"))
     if not q:
         raise AnalysisError("find_shortest_path: no deque frontier found (unrecognised search idiom)")
     q = q[0]
-    ops = [call_name(c) for c in walk_local(fi.node) if isinstance(c, ast.Call) and isinstance(c.func, ast.Attribute) and dotted(c.func.value) == q]
+    ops = [call_name(c) for c in walk_local(fn) if isinstance(c, ast.Call) and isinstance(c.func, ast.Attribute) and dotted(c.func.value) == q]
     fifo = set(ops) <= {"append", "popleft", "extend"} and "popleft" in ops
     fifo2 = set(ops) <= {"appendleft", "pop", "extendleft"} and "pop" in ops
     ck.check(fifo or fifo2, "G-TYPESTATE", "find_shortest_path|frontier-is-fifo", fi.loc(),
              f"frontier `{q}` used with {sorted(set(ops))}: first-in first-out, i.e. breadth-first",
              f"frontier `{q}` is used with {sorted(set(ops))}: not a FIFO queue, so the first path found need not be a shortest one")
-    # first discovery returns
-    tests = [n for n in cfg.nodes if n.kind == "test" and isinstance(n.ast, ast.Compare) and norm(n.ast.comparators[0]) == "end" and isinstance(n.ast.ops[0], ast.Eq)]
-    inner = [n for n in tests if norm(n.ast.left) != "start"]
+    # the entry taken from the frontier is unpacked into (current node, current path)
+    taken = [a for a in walk_local(fn) if isinstance(a, ast.Assign) and isinstance(a.targets[0], ast.Tuple) and len(a.targets[0].elts) == 2
+             and all(isinstance(e, ast.Name) for e in a.targets[0].elts)
+             and isinstance(_sh.unalias(a.value, fn), ast.Call) and isinstance(_sh.unalias(a.value, fn).func, ast.Attribute)
+             and dotted(_sh.unalias(a.value, fn).func.value) == q and call_name(_sh.unalias(a.value, fn)) in ("popleft", "pop")]
+    ck.floor("G-TYPESTATE", len(taken), 1, "frontier entry unpacked into (node, path)")
+    cur, pth = [e.id for e in taken[0].targets[0].elts]
+
+    def extended_by(e, node_txt):
+        """e is (a name for) <current path> + [<node>]"""
+        b = _m("_P + [_N]", _sh.unalias(e, fn))
+        return b is not None and b["_P"] == pth and b["_N"] == node_txt
+
+    def is_target_test(a, trivial):
+        if not (isinstance(a, ast.Compare) and len(a.ops) == 1 and isinstance(a.ops[0], ast.Eq)):
+            return False
+        sides = [norm(a.left), norm(a.comparators[0])]
+        return "end" in sides and (("start" in sides) == trivial)
+
+    def other_side(a):
+        return norm(a.comparators[0]) if norm(a.left) == "end" else norm(a.left)
+    # first discovery returns (whichever way the test is written)
+    inner = []
+    for n in cfg.nodes:
+        if n.kind == "test" and n.ast is not None:
+            for lab in ("t", "f"):
+                for at, truth in _sh.conjuncts(n.ast, lab):
+                    if truth and is_target_test(at, False):
+                        inner.append((n, lab, other_side(at)))
     ck.check(bool(inner), "G-TYPESTATE", "find_shortest_path|target-test-on-discovery", fi.loc(), "neighbours are compared with the target when discovered",
              "neighbours are no longer compared with the target on discovery")
-    for n in inner:
-        succ = [v for (v, lab) in cfg.succ[n.id] if lab == "t"]
+    for n, lab, found in inner:
+        succ = [v for (v, l2) in cfg.succ[n.id] if l2 == lab]
         ok = all(isinstance(cfg.nodes[s].ast, ast.Return) for s in succ) and bool(succ)
         ck.check(ok, "G-TYPESTATE", "find_shortest_path|returns-at-first-discovery", fi.loc(n.ast), "returns as soon as the target is discovered",
                  "the search continues after the target was discovered (a later, longer path can be returned)")
         for s in succ:
             r = cfg.nodes[s].ast
-            from .. import shape as _shp
-            v = _shp.unalias(r.value, fi.node)      # `extended = path + [node]` hoisted into a temporary
-            ok2 = isinstance(v, ast.BinOp) and isinstance(v.op, ast.Add) and norm(v.left) == "path" and norm(n.ast.left) in norm(v.right)
-            ck.check(ok2, "G-PROV", "find_shortest_path|returned-path-extends-current-path", fi.loc(r), "returns path + [target]", f"`{norm(r)}` is not the current path extended by the discovered node")
-    triv = [n for n in tests if norm(n.ast.left) == "start"]
+            if isinstance(r, ast.Return) and r.value is not None:
+                ck.check(extended_by(r.value, found), "G-PROV", "find_shortest_path|returned-path-extends-current-path", fi.loc(r), "returns path + [target]", f"`{norm(r)}` is not the current path extended by the discovered node")
+    triv = _sh.guard_edges(cfg, lambda a: is_target_test(a, True), want=True)
     ck.check(bool(triv), "G-TYPESTATE", "find_shortest_path|trivial-path", fi.loc(), "start == end returns the trivial path", "start == end is no longer answered with the trivial path")
     # expansion appends path + [node]; visited set prevents revisits
-    apps = [c for c in walk_local(fi.node) if isinstance(c, ast.Call) and call_name(c) in ("append", "appendleft") and dotted(c.func.value) == q]
+    apps = [c for c in walk_local(fn) if isinstance(c, ast.Call) and call_name(c) in ("append", "appendleft") and isinstance(c.func, ast.Attribute) and dotted(c.func.value) == q and c.args]
+    expansions = []
     for c in apps:
-        a = c.args[0]
+        a = _sh.unalias(c.args[0], fn)
         if isinstance(a, ast.Tuple) and len(a.elts) == 2:
-            node, pth = a.elts
+            node, p2 = a.elts
             if norm(node) == "start":
                 continue
-            from .. import shape as _shp
-            pth = _shp.unalias(pth, fi.node)
-            ok = isinstance(pth, ast.BinOp) and norm(pth.left) == "path" and norm(node) in norm(pth.right)
-            ck.check(ok, "G-PROV", "find_shortest_path|frontier-entry-carries-extended-path", fi.loc(c), "frontier entries carry path + [node]", f"`{norm(c)}` does not carry the path extended by the node")
-    ck.check("visited" in norm(fi.node) and " - visited" in norm(fi.node), "G-TYPESTATE", "find_shortest_path|visited-nodes-skipped", fi.loc(),
+            expansions.append((c, norm(node)))
+            ck.check(extended_by(p2, norm(node)), "G-PROV", "find_shortest_path|frontier-entry-carries-extended-path", fi.loc(c), "frontier entries carry path + [node]", f"`{norm(c)}` does not carry the path extended by the node")
+    ck.floor("G-TYPESTATE", len(expansions), 1, "frontier expansion in find_shortest_path")
+    # a set collects the nodes taken from the frontier, and a neighbour in that set is not put on the frontier again:
+    # the neighbours iterated are `graph[node] - S`, or the expansion is on the `n not in S` side of a membership test
+    seen_sets = {dotted(c.func.value) for c in walk_local(fn) if isinstance(c, ast.Call) and call_name(c) == "add" and isinstance(c.func, ast.Attribute)
+                 and isinstance(c.func.value, ast.Name) and c.args and norm(c.args[0]) in ({cur} | {n_ for _, n_ in expansions})}
+    skipped = False
+    for c, node_txt in expansions:
+        loop = memo.enclosing(c, (ast.For,), fn)
+        if loop is not None and isinstance(loop.target, ast.Name) and loop.target.id == node_txt:
+            b = _m("graph[_C] - _S", loop.iter, fn)
+            skipped = skipped or (b is not None and b["_S"] in seen_sets)
+        skipped = skipped or _sh.holds_at(c, fn, lambda a: isinstance(a, ast.Compare) and isinstance(a.ops[0], ast.In) and norm(a.left) == node_txt and norm(a.comparators[0]) in seen_sets, False)
+    ck.check(skipped, "G-TYPESTATE", "find_shortest_path|visited-nodes-skipped", fi.loc(),
              "visited nodes are not expanded again", "visited nodes are expanded again (termination / shortest path not guaranteed)")
-    last = [r for r in walk_local(fi.node) if isinstance(r, ast.Return)]
+    last = [r for r in walk_local(fn) if isinstance(r, ast.Return)]
     ck.check(any(norm(r.value) == "None" for r in last), "G-PROV", "find_shortest_path|unreachable-gives-none", fi.loc(), "unreachable target gives None", "an unreachable target no longer yields None")
 
     # ------------------------------------------------------------ ContextRegistry._convert
     fi = ix.func(CR, "GenericContextRegistry._convert")
     ck.analysed(fi)
+    fn = fi.node
     cfg, defs = cfg_of(fi), defs_of(fi)
-    sp = [c for c in walk_local(fi.node) if isinstance(c, ast.Call) and call_name(c) == "find_shortest_path"]
+    sp = [c for c in walk_local(fn) if isinstance(c, ast.Call) and call_name(c) == "find_shortest_path"]
     ck.floor("G-PROV", len(sp), 1, "find_shortest_path call in ContextRegistry._convert")
     for c in sp:
         a = [defs.inline(x) for x in c.args]
         ok = len(a) == 3 and norm(a[0]) == "self._active_ctx.graph" and norm(a[1]) == "self._get_dimensionality(src)" and norm(a[2]) == "self._get_dimensionality(dst)"
         ck.check(ok, "G-PROV", "ctx_convert|path-from-src-dim-to-dst-dim", fi.loc(c), "path searched in the active graph from dim(src) to dim(dst)",
                  f"`{norm(c)}` (after inlining: {[norm(x) for x in a]}) is not a search from dim(src) to dim(dst) in the active graph")
-    loops = [f for f in walk_local(fi.node) if isinstance(f, ast.For) and "zip" in norm(f.iter)]
+    # the loop that applies the chain's transformations runs over the consecutive pairs of the path that was found
+    found_path = _names_bound_to(fi, lambda v: isinstance(v, ast.Call) and call_name(v) == "find_shortest_path")
+    loops = [f for f in walk_local(fn) if isinstance(f, ast.For) and any(isinstance(c, ast.Call) and call_name(c) == "transform" for c in ast.walk(f))]
     ck.floor("G-PROV", len(loops), 1, "loop over consecutive path nodes")
     for f in loops:
-        ok = norm(f.iter).replace(" ", "") in ("zip(path[:-1],path[1:])", "zip(path,path[1:])", "itertools.pairwise(path)", "pairwise(path)")
-        ck.check(ok, "G-PROV", "ctx_convert|consecutive-pairs-in-path-order", fi.loc(f), "rules applied over consecutive pairs of the path, in order",
+        bs = [b for b in (_m(pat, f.iter, None) or _m(pat, defs.inline(f.iter), None) for pat in PAIRS_OF) if b is not None]
+        ok = bool(bs) and (bs[0]["_P"] in found_path or bs[0]["_P"].startswith("find_shortest_path("))
+        ck.check(ok and isinstance(f.target, ast.Tuple) and len(f.target.elts) == 2, "G-PROV", "ctx_convert|consecutive-pairs-in-path-order", fi.loc(f), "rules applied over consecutive pairs of the path, in order",
                  f"`{norm(f.iter)}` does not enumerate consecutive (a, b) pairs of the path in order")
+        if not (isinstance(f.target, ast.Tuple) and len(f.target.elts) == 2):
+            continue
         a, b = [norm(e) for e in f.target.elts]
         tr = [c for c in ast.walk(f) if isinstance(c, ast.Call) and call_name(c) == "transform"]
-        ck.floor("G-PROV", len(tr), 1, "transform call in the path loop")
         for c in tr:
             args = [norm(x) for x in c.args]
             tgt = getattr(c, "_parent", None)
@@ -164,19 +227,23 @@ def run(ck, ix, tier):
             ck.check(args[:3] == [a, b, "self"] and same_var and "_active_ctx" in norm(c.func), "G-PROV", "ctx_convert|transform-chained", fi.loc(c),
                      "each step transforms the running value from a to b through the active chain",
                      f"`{norm(tgt) if tgt is not None else norm(c)}` does not chain the running value through transform({a}, {b}, self, value)")
-    from .. import shape as _shp
-    active = _shp.guard_edges(cfg, lambda a_: norm(a_) == "self._active_ctx", want=True)
+    active = _sh.guard_edges(cfg, lambda a_: norm(a_) == "self._active_ctx", want=True)
     spn = nodes_with(cfg, lambda x: isinstance(x, ast.Call) and call_name(x) == "find_shortest_path")
-    ck.check(bool(active) and _shp.reachable_without(cfg, live(cfg, spn), active) is None, "G-DOM", "ctx_convert|rules-only-with-active-contexts", fi.loc(), "rules are only consulted while contexts are active", "the rule graph is searched although no context is active (the active-context test is gone)")
+    ck.check(bool(active) and _sh.reachable_without(cfg, live(cfg, spn), active) is None, "G-DOM", "ctx_convert|rules-only-with-active-contexts", fi.loc(), "rules are only consulted while contexts are active", "the rule graph is searched although no context is active (the active-context test is gone)")
     # delegation (shared with C01): every normal exit through super()._convert
     sup = nodes_with(cfg, lambda x: is_super_call(x, "_convert"))
     p = cfg.all_paths_pass(cfg.entry, [cfg.exit], sup)
     ck.check(bool(sup) and p is None, "G-DOM", "ctx_convert|every-normal-exit-through-super-convert", fi.loc(),
              "every normal exit delegates to super()._convert", "a normal exit bypasses super()._convert", witness(cfg, p))
-    for c in [x for x in walk_local(fi.node) if is_super_call(x, "_convert")]:
-        ck.check([norm(a) for a in c.args][:3] == ["value", "src", "dst"], "G-PROV", "ctx_convert|delegates-transformed-value-and-units", fi.loc(c),
+    # what is delegated is the running (value, units) pair - the parameters themselves, rebound or not - or the
+    # magnitude and units of one and the same transformed quantity - and the destination
+    for c in [x for x in walk_local(fn) if is_super_call(x, "_convert")]:
+        a3 = [norm(a) for a in c.args][:3]
+        split = len(c.args) >= 2 and all(isinstance(x, ast.Attribute) for x in c.args[:2]) and c.args[0].attr == "_magnitude" and c.args[1].attr == "_units" \
+            and norm(c.args[0].value) == norm(c.args[1].value) and "call:transform" in defs.roots(c.args[0].value)
+        ck.check(len(a3) == 3 and a3[2] == "dst" and (a3[:2] == ["value", "src"] or split), "G-PROV", "ctx_convert|delegates-transformed-value-and-units", fi.loc(c),
                  "delegates (value, src, dst)", f"`{norm(c)}` does not pass the (transformed) value, its units and the destination")
-    unpack = [a for a in walk_local(fi.node) if isinstance(a, ast.Assign) and isinstance(a.targets[0], ast.Tuple) and [norm(e) for e in a.targets[0].elts] == ["value", "src"]]
+    unpack = [a for a in walk_local(fn) if isinstance(a, ast.Assign) and isinstance(a.targets[0], ast.Tuple) and [norm(e) for e in a.targets[0].elts] == ["value", "src"]]
     for a in unpack:
         e_ = a.value.elts if isinstance(a.value, ast.Tuple) and len(a.value.elts) == 2 else [None, None]
         oku = all(isinstance(x, ast.Attribute) for x in e_) and e_[0].attr == "_magnitude" and e_[1].attr == "_units" and norm(e_[0].value) == norm(e_[1].value)
@@ -190,14 +257,13 @@ def run(ck, ix, tier):
     fi = ix.func(CO, "ContextChain.transform")
     ck.analysed(fi)
     r = [x for x in walk_local(fi.node) if isinstance(x, ast.Return)]
-    from .. import shape as _sh11
-    ok = len(r) == 1 and _sh11.rnorm(r[0].value, fi.node) in ("self[src, dst].transform(src, dst, registry, value)", "self[(src, dst)].transform(src, dst, registry, value)")
+    ok = len(r) == 1 and _sh.rnorm(r[0].value, fi.node) in ("self[src, dst].transform(src, dst, registry, value)", "self[(src, dst)].transform(src, dst, registry, value)")
     ck.check(ok, "G-PROV", "ContextChain.transform|first-map-with-rule-wins", fi.loc(), "rule looked up through the ChainMap (newest context first) and applied with (src, dst, registry, value)",
              f"`{norm(r[0]) if r else '?'}` is not the ChainMap lookup of (src, dst) applied to the value")
     fi = ix.func(CO, "Context.transform")
     ck.analysed(fi)
     # the rule function is whatever is called with the value: a call whose callee resolves to a read of self.funcs
-    calls = [(c, _sh11.resolve(c, fi.node)) for c in walk_local(fi.node) if isinstance(c, ast.Call)]
+    calls = [(c, _sh.resolve(c, fi.node)) for c in walk_local(fi.node) if isinstance(c, ast.Call)]
     calls = [(c, rc) for c, rc in calls if isinstance(rc.func, ast.Subscript) and norm(rc.func.value) == "self.funcs"]
     ck.floor("G-PROV", len(calls), 1, "rule function call in Context.transform")
     for c, rc in calls:
@@ -207,11 +273,18 @@ def run(ck, ix, tier):
                  "rule selected by (src, dst)", "the rule is not selected by the (src, dst) key")
     fi = ix.func(CO, "Context.__keytransform__")
     r = [x for x in walk_local(fi.node) if isinstance(x, ast.Return)]
-    ck.check(len(r) == 1 and norm(r[0].value) == "(to_units_container(src), to_units_container(dst))", "G-PROV", "Context.__keytransform__|src-dst-order", fi.loc(),
+    ck.check(len(r) == 1 and _sh.rnorm(r[0].value, fi.node) == "(to_units_container(src), to_units_container(dst))", "G-PROV", "Context.__keytransform__|src-dst-order", fi.loc(),
              "key is (src, dst)", f"`{norm(r[0]) if r else '?'}` is not the (src, dst) key")
     fi = ix.func(CO, "ContextChain.defaults")
     ck.analysed(fi)
-    ck.check("self.values()" in norm(fi.node) and "return ctx.defaults" in norm(fi.node), "G-PROV", "ContextChain.defaults|newest-context-defaults", fi.loc(),
+    # the first context met when iterating the chain (newest first) answers: an unconditional `return <ctx>.defaults`
+    # inside the loop over self.values()
+    newest = False
+    for lp in [l for l in walk_local(fi.node) if isinstance(l, ast.For) and isinstance(l.target, ast.Name) and _sh.rnorm(l.iter, fi.node) == "self.values()"]:
+        for r_ in [x for x in ast.walk(lp) if isinstance(x, ast.Return) and x.value is not None]:
+            b = _m("_C.defaults", r_.value, fi.node)
+            newest = newest or (b is not None and b["_C"] == lp.target.id and not _sh.facts_at(r_, lp) and memo.enclosing(r_, (ast.For, ast.While), lp) is None)
+    ck.check(newest, "G-PROV", "ContextChain.defaults|newest-context-defaults", fi.loc(),
              "enclosing defaults are those of the most recently enabled context", "ContextChain.defaults no longer returns the first (newest) context's defaults")
 
     # ------------------------------------------------------------ parameter precedence
@@ -221,36 +294,43 @@ def run(ck, ix, tier):
     ck.floor("G-PROV", len(dcalls), 1, "merge of enclosing defaults into kwargs")
     for a in dcalls:
         v = a.value
-        from .. import shape as _shd
         if isinstance(v, ast.Call) and v.args:
-            v = ast.Call(func=v.func, args=[_shd.unalias(v.args[0], fi.node)] + list(v.args[1:]), keywords=v.keywords)
+            v = ast.Call(func=v.func, args=[_sh.unalias(v.args[0], fi.node)] + list(v.args[1:]), keywords=v.keywords)
         ok = (isinstance(v, ast.Call) and call_name(v) == "dict" and len(v.args) == 1 and norm(v.args[0]) == "self._active_ctx.defaults"
               and any(k.arg is None and norm(k.value) == "kwargs" for k in v.keywords)) or \
              (isinstance(v, ast.Dict) and [norm(x) for x in v.values] == ["self._active_ctx.defaults", "kwargs"] and all(k is None for k in v.keys)) or \
              (isinstance(v, ast.BinOp) and isinstance(v.op, ast.BitOr) and norm(v.left) == "self._active_ctx.defaults" and norm(v.right) == "kwargs")
         ck.check(ok, "G-PROV", "enable_contexts|call-kwargs-override-enclosing-defaults", fi.loc(a), "call keyword arguments override the enclosing chain's defaults",
                  f"`{norm(a)}` does not let the call's keyword arguments override the enclosing defaults")
-    # endpoint normalisation on first activation (the `checked` flag)
-    from .. import shape as _she
-    fnx = _she.inline_helpers(ix, fi)      # an extracted private helper (method or module function) is looked through
-    norm_tests = [t for t in ast.walk(fnx) if isinstance(t, ast.If) and any(isinstance(st, ast.Expr) and isinstance(st.value, ast.Call) and call_name(st.value) == "remove_transformation" for st in t.body)]
-    ck.floor("G-PROV", len(norm_tests), 1, "endpoint normalisation test in enable_contexts")
-    for t in norm_tests:
-        tt = t.test
-        parts = tt.values if isinstance(tt, ast.BoolOp) else [tt]
-        cmp_ok = all(isinstance(x, ast.Compare) and isinstance(x.ops[0], ast.NotEq) for x in parts)
-        ok = isinstance(tt, ast.BoolOp) and isinstance(tt.op, ast.Or) and len(parts) == 2 and cmp_ok
-        ck.check(ok, "G-PROV", "enable_contexts|rule-renormalised-if-either-endpoint-differs", fi.loc(t),
-                 "a rule is re-keyed when either endpoint is not in base dimensions",
-                 f"`{norm(tt)}`: a rule whose source *or* target is a derived dimension must be re-keyed to base dimensions (otherwise the path search never finds it)")
-        rm = [c for c in ast.walk(t) if isinstance(c, ast.Call) and call_name(c) == "remove_transformation"]
-        ad = [c for c in ast.walk(t) if isinstance(c, ast.Call) and call_name(c) == "add_transformation"]
-        ok2 = len(rm) == 1 and len(ad) == 1 and len(rm[0].args) == 2 and len(ad[0].args) == 3
+    # endpoint normalisation on first activation (the `checked` flag): a rule is moved from its (src, dst) key to the key
+    # made of the dimensionalities of src and dst exactly when the two keys differ
+    fnx = memo.looked_through(ix, fi).node      # an extracted private helper (method or module function) is looked through
+    moved = [c for c in ast.walk(fnx) if isinstance(c, ast.Call) and call_name(c) == "remove_transformation" and not _sh.dead(c, fnx)]
+    ck.floor("G-PROV", len(moved), 1, "endpoint normalisation test in enable_contexts")
+    for rm in moved:
+        loop = memo.enclosing(rm, (ast.For,), fnx)
+        ad = [c for c in ast.walk(loop if loop is not None else fnx) if isinstance(c, ast.Call) and call_name(c) == "add_transformation"]
+        olds = [norm(a) for a in rm.args]
+        ok2 = len(ad) == 1 and len(olds) == 2 and len(ad[0].args) == 3
+        news = []
         if ok2:
-            olds = [norm(a) for a in rm[0].args]
-            news = [_she.unalias(a, fnx) for a in ad[0].args[:2]]
-            ok2 = all(isinstance(nw, ast.Call) and "get_dimensionality" in norm(nw.func).lower().replace("_get_", "get_") and [norm(x) for x in nw.args] == [o] for nw, o in zip(news, olds)) and isinstance(ad[0].args[2], ast.Name)
-        ck.check(ok2, "G-PROV", "enable_contexts|rule-rekeyed-to-base-dimensions", fi.loc(t), "old key removed, same function added under the base-dimension key",
+            news = [norm(a) for a in ad[0].args[:2]]
+            based = [_sh.unalias(a, fnx) for a in ad[0].args[:2]]
+            ok2 = all(isinstance(nw, ast.Call) and call_name(nw) in ("get_dimensionality", "_get_dimensionality") and [norm(x) for x in nw.args] == [o] for nw, o in zip(based, olds)) \
+                and isinstance(ad[0].args[2], ast.Name) and not isinstance(_sh.unalias(ad[0].args[2], fnx), ast.Call)
+        # the guard: known where the rule is removed = "not (src == src' and dst == dst')", and nothing stronger
+        want = {frozenset(p_) for p_ in zip(olds, news)}
+        excl = []
+        for ex in memo.excluded_conjunctions(rm, fnx):
+            pairs = [frozenset((norm(at.left), norm(at.comparators[0]))) for at, tr in ex if isinstance(at, ast.Compare) and len(at.ops) == 1 and isinstance(at.ops[0], ast.Eq) and tr]
+            if len(pairs) == len(ex) and any(p_ in want for p_ in pairs):
+                excl.append(set(pairs))
+        ok = bool(news) and excl == [want]
+        test = memo.enclosing(rm, (ast.If,), fnx)
+        ck.check(ok, "G-PROV", "enable_contexts|rule-renormalised-if-either-endpoint-differs", fi.loc(rm),
+                 "a rule is re-keyed when either endpoint is not in base dimensions",
+                 f"`{norm(test.test) if test is not None else norm(rm)}`: a rule whose source *or* target is a derived dimension must be re-keyed to base dimensions (otherwise the path search never finds it)")
+        ck.check(ok2, "G-PROV", "enable_contexts|rule-rekeyed-to-base-dimensions", fi.loc(rm), "old key removed, same function added under the base-dimension key",
                  "the rule is not moved from (src, dst) to (base src, base dst) with the same function")
     fc = [c for c in walk_local(fi.node) if isinstance(c, ast.Call) and call_name(c) == "from_context"]
     ck.floor("G-PROV", len(fc), 1, "from_context call")
@@ -264,12 +344,25 @@ def run(ck, ix, tier):
         c = a
         ok = len(c.args) == 1 and norm(c.args[0]) == "context.defaults" and any(k.arg is None and norm(k.value) == "defaults" for k in c.keywords)
         ck.check(ok, "G-PROV", "Context.from_context|passed-defaults-override-declared", fi.loc(a), "passed values override declared defaults", f"`{norm(c)}` reverses the override order")
-    # name / alias resolution of contexts
+    # name / alias resolution of contexts: stored under context.name and, in a loop over context.aliases, under each alias
     fi = ix.func(CR, "GenericContextRegistry.add_context")
     ck.analysed(fi)
-    ws = [(p, k, n) for (p, k, n) in writes_in(fi.node) if p == "self._contexts"]
-    keys = sorted(norm(t.slice) for (p, k, n) in ws for t in n.targets if isinstance(t, ast.Subscript))
-    ck.check(keys == ["alias", "context.name"], "G-PROV", "add_context|registered-under-name-and-aliases", fi.loc(), "registered under name and every alias", f"contexts are registered under {keys}")
+    roles, keys = set(), []
+    for (p, k, n) in writes_in(fi.node):
+        if p != "self._contexts" or not isinstance(n, ast.Assign):
+            continue
+        for t in n.targets:
+            if not (isinstance(t, ast.Subscript) and dotted(t.value) == "self._contexts"):
+                continue
+            keys.append(norm(t.slice))
+            loop = memo.enclosing(n, (ast.For,), fi.node)
+            if norm(t.slice) == "context.name" and norm(n.value) == "context":
+                roles.add("name")
+            elif loop is not None and isinstance(loop.target, ast.Name) and norm(t.slice) == loop.target.id and _sh.rnorm(loop.iter, fi.node) == "context.aliases" and norm(n.value) == "context":
+                roles.add("alias")
+            else:
+                roles.add("other:" + norm(t.slice))
+    ck.check(roles == {"name", "alias"}, "G-PROV", "add_context|registered-under-name-and-aliases", fi.loc(), "registered under name and every alias", f"contexts are registered under {sorted(keys)}")
 
     # ------------------------------------------------------------ rule equation evaluation
     fi = ix.func(CD, "Relation.transformation")
@@ -284,45 +377,90 @@ def run(ck, ix, tier):
                  f"`{norm(l)}` does not evaluate the equation with value and parameters")
     fi = ix.func(CO, "Context.from_definition")
     ck.analysed(fi)
-    adds = [c for c in walk_local(fi.node) if isinstance(c, ast.Call) and call_name(c) == "add_transformation"]
-    args = [[norm(a) for a in c.args] for c in adds]
-    ck.check(["src", "dst", "relation.transformation"] in args, "G-PROV", "Context.from_definition|forward-rule", fi.loc(), "forward rule src->dst registered", f"rules registered: {args}")
-    bi = [c for c in adds if [norm(a) for a in c.args] == ["dst", "src", "relation.transformation"]]
-    ok = bool(bi) and isinstance(getattr(getattr(bi[0], "_parent", None), "_parent", None), ast.If) and norm(bi[0]._parent._parent.test) == "relation.bidirectional"
+    defs = defs_of(fi)
+    # in the loop over the declared relations R: the rule R.transformation is registered from (what derives from) R.src to
+    # (what derives from) R.dst unconditionally, and the other way round exactly when R.bidirectional
+    rel_loops = [l for l in walk_local(fi.node) if isinstance(l, ast.For) and isinstance(l.target, ast.Name) and _sh.rnorm(l.iter, fi.node).endswith(".relations")]
+    ck.floor("G-PROV", len(rel_loops), 1, "loop over the relations of the context definition")
+    fwd, rev, args = [], [], []
+    for l in rel_loops:
+        R = l.target.id
+        for c in [c for c in ast.walk(l) if isinstance(c, ast.Call) and call_name(c) == "add_transformation" and len(c.args) == 3]:
+            args.append([norm(a) for a in c.args])
+            r0, r1 = defs.roots(c.args[0]), defs.roots(c.args[1])
+            if _sh.rnorm(c.args[2], fi.node) != f"{R}.transformation":
+                continue
+            bidir = [tr for at, tr in _sh.facts_at(c, fi.node) if norm(at) == f"{R}.bidirectional"]
+            if f"{R}.src" in r0 and f"{R}.dst" in r1 and f"{R}.dst" not in r0 and f"{R}.src" not in r1:
+                fwd.append((c, bidir))
+            elif f"{R}.dst" in r0 and f"{R}.src" in r1 and f"{R}.src" not in r0 and f"{R}.dst" not in r1:
+                rev.append((c, bidir))
+    ck.check(any(not bidir for c, bidir in fwd), "G-PROV", "Context.from_definition|forward-rule", fi.loc(), "forward rule src->dst registered", f"rules registered: {args}")
+    ok = bool(rev) and all(bidir == [True] for c, bidir in rev)
     ck.check(ok, "G-PROV", "Context.from_definition|reverse-rule-only-if-bidirectional", fi.loc(), "reverse rule only for <->", "the reverse rule is not registered exactly for bidirectional relations")
 
     # ------------------------------------------------------------ _redefine gates
     fi = ix.func(CR, "GenericContextRegistry._redefine")
     ck.analysed(fi)
     cfg = cfg_of(fi)
+    defs = defs_of(fi)
     sink = nodes_calling(cfg, "define")
     ck.floor("G-DOM", len(sink), 1, "define call in _redefine")
-    gates = {
-        "unknown-unit": lambda n: n.kind == "test" and norm(n.ast) == "not candidates",
-        "prefixed-name": lambda n: n.kind == "test" and norm(n.ast) == "not candidates_no_prefix",
-        "base-unit": lambda n: n.kind == "test" and norm(n.ast) == "basedef.is_base",
-        "dimension-change": lambda n: n.kind == "test" and norm(n.ast).replace(" ", "") in ("dims_old!=dims_new", "notdims_old==dims_new"),
-    }
-    for name, pred in gates.items():
-        g = [n.id for n in cfg.nodes if pred(n)]
-        if not g:
+    inl = lambda e: defs.inline(e)          # local temporaries replaced by what they stand for (parameters are kept)
+
+    def is_candidates(a):
+        v = inl(a)
+        return isinstance(a, ast.Name) and isinstance(v, ast.Call) and call_name(v) == "parse_unit_name" and [norm(x) for x in v.args] == ["definition.name"]
+
+    def is_unprefixed_candidates(a):
+        v = inl(a)
+        if not (isinstance(a, ast.Name) and isinstance(v, (ast.ListComp, ast.GeneratorExp)) and len(v.generators) == 1):
+            return False
+        g = v.generators[0]
+        src_ok = isinstance(g.iter, ast.Call) and call_name(g.iter) == "parse_unit_name"
+        # selects the candidates whose prefix (first component) is empty
+        sel = any(not tr and isinstance(at, ast.Subscript) and norm(at.value) == norm(g.target) and norm(at.slice) == "0" for i in g.ifs for at, tr in _sh.conjuncts(i, "t"))
+        return src_ok and sel and norm(v.elt) == norm(g.target)
+
+    def is_base_flag(a):
+        return _sh.match("self._units[_N].is_base", inl(a)) is not None
+
+    def dim_sides(a):
+        if not (isinstance(a, ast.Compare) and len(a.ops) == 1 and isinstance(a.ops[0], ast.Eq)):
+            return None
+        bs = [_sh.match("self._get_dimensionality(_R)", inl(x)) for x in (a.left, a.comparators[0])]
+        return [b["_R"] for b in bs] if all(b is not None for b in bs) else None
+    # (gate name, atom predicate, truth of the atom on the way to `define`)
+    gates = (("unknown-unit", is_candidates, True), ("prefixed-name", is_unprefixed_candidates, True),
+             ("base-unit", is_base_flag, False), ("dimension-change", lambda a: dim_sides(a) is not None, True))
+    for name, pred, want in gates:
+        safe = _sh.guard_edges(cfg, pred, want=want)
+        if not safe:
             ck.fail("G-DOM", f"_redefine|{name}-rejected", fi.loc(), f"the `{name}` rejection test is gone")
             continue
         for s in live(cfg, sink):
-            p = undominated(cfg, [s], g)
-            ck.check(p is None, "G-DOM", f"_redefine|{name}-rejected", fi.loc(cfg.nodes[g[0]].ast), f"{name} tested before define", f"define reachable without the {name} test", witness(cfg, p))
-        for t in g:
-            p = edge_leads_only_to_raise(cfg, t, "t", also_forbid=sink)
+            p = _sh.reachable_without(cfg, [s], safe)
+            ck.check(p is None, "G-DOM", f"_redefine|{name}-rejected", fi.loc(cfg.nodes[safe[0][0]].ast), f"{name} tested before define", f"define reachable without the {name} test", witness(cfg, p))
+        for (t, lab) in sorted(set(safe)):
+            p = edge_leads_only_to_raise(cfg, t, _sh.other(lab), also_forbid=sink)
             ck.check(p is None, "G-DOM", f"_redefine|{name}-raises", fi.loc(cfg.nodes[t].ast), f"{name} raises", f"{name} does not raise before define", witness(cfg, p))
-    defs = defs_of(fi)
-    for nm, arg in (("dims_old", "basedef.reference"), ("dims_new", "definition.reference")):
-        v = defs.single(nm)
-        ck.check(v is not None and norm(v) == f"self._get_dimensionality({arg})", "G-PROV", f"_redefine|{nm}", fi.loc(), f"{nm} = dimensionality of {arg}", f"{nm} is `{norm(v)}`")
+    # the two dimensionalities compared: of the registry's current definition (old) and of the redefinition (new)
+    compared = [dim_sides(at) for n in cfg.nodes if n.kind == "test" and n.ast is not None for at, _ in _sh.conjuncts(n.ast, "t") if dim_sides(at) is not None]
+    refs = [r for sides in compared for r in sides]
+    for nm, pat, what in (("dims_old", "self._units[_N].reference", "the registry's definition"), ("dims_new", "definition.reference", "the redefinition")):
+        ok = any(_sh.match(pat, ast.parse(r, mode="eval").body) is not None for r in refs) and all(len(set(sides)) == 2 for sides in compared)
+        ck.check(ok, "G-PROV", f"_redefine|{nm}", fi.loc(), f"{nm} = dimensionality of the reference of {what}", f"{nm}: the dimensionality of the reference of {what} is not one of the compared values {refs}")
     # rebuilt definition keeps name/symbol/aliases of the registry's unit and takes reference+converter of the redefinition
     ud = [c for c in walk_local(fi.node) if isinstance(c, ast.Call) and call_name(c) == "UnitDefinition"]
     for c in ud:
-        kw = {k.arg: norm(k.value) for k in c.keywords}
-        ok = kw == {"name": "basedef.name", "defined_symbol": "basedef.symbol", "aliases": "basedef.aliases", "reference": "definition.reference", "converter": "definition.converter"}
-        ck.check(ok, "G-PROV", "_redefine|rebuilt-definition-fields", fi.loc(c), "identity from the registry, value from the redefinition", f"rebuilt definition fields are {kw}")
+        kw = {k.arg: norm(inl(k.value)) for k in c.keywords}
+        shown = {k.arg: norm(k.value) for k in c.keywords}
+        want_kw = {"name": "self._units[_N].name", "defined_symbol": "self._units[_N].symbol", "aliases": "self._units[_N].aliases", "reference": "definition.reference", "converter": "definition.converter"}
+        bnd = {}
+        ok = set(kw) == set(want_kw)
+        for k_, pat in want_kw.items():
+            b = _sh.match(pat, ast.parse(kw[k_], mode="eval").body) if k_ in kw else None
+            ok = ok and b is not None and bnd.setdefault("_N", b.get("_N", bnd.get("_N"))) == b.get("_N", bnd.get("_N"))
+        ck.check(ok, "G-PROV", "_redefine|rebuilt-definition-fields", fi.loc(c), "identity from the registry, value from the redefinition", f"rebuilt definition fields are {shown}")
     context_copy_rule(ck, ix)
     return EXPLANATION
